@@ -56,6 +56,16 @@ class Gen:
         return {k: dy(self.rng, 1, 16, 3) for k in PARAMS}
 
     # ------------------------------------------------------------------ programs
+    def _dest_filter(self, ops, comps, dst, name, strata):
+        """a destination filter for a flow added to a stratified model: over a non-empty subset of the stratifications
+        that cover dst - a proper subset when there are several, so that the filter still matches several compartments"""
+        r = self.rng
+        cover = [(o_["name"], o_["strata"]) for o_ in ops if o_["op"] == "strat" and dst in (o_.get("comps") or comps)]
+        if not cover:
+            return {name: r.choice(strata)}
+        sub = r.sample(cover, r.randint(1, max(1, len(cover) - (1 if r.random() < 0.7 else 0))))
+        return {n_: r.choice(st_) for n_, st_ in sub}
+
     def program(self, want=None):
         """want: dict of feature switches (solver steps, nonlinear, requests ...)"""
         r = self.rng
@@ -271,13 +281,14 @@ class Gen:
                 ops.append(o2)
                 flow_names.append(o2["name"])
                 meta["flows"].append("post-strat")
-            if want.get("post_birth") and not has_birth and len(strata) >= 2 and r.random() < want["post_birth"]:
+            if want.get("post_birth") and not has_birth and len(strata) >= 2 and r.random() < want["post_birth"] \
+                    and (k == nstrat - 1 or r.random() < 0.5):     # often kept for the last stratification: several matches
                 # a birth flow added to the stratified model: its destination matches several compartments
                 has_birth = True
                 bk = r.choice(want.get("post_birth_kinds", ["replacement_birth", "crude_birth"]))
                 o3 = {"op": "flow", "kind": bk, "name": "pbirth", "param": frac(r), "dst": r.choice(scomps)}
-                if r.random() < 0.4:
-                    o3["df"] = {name: r.choice(strata)}
+                if r.random() < 0.5:
+                    o3["df"] = self._dest_filter(ops, comps, o3["dst"], name, strata)
                 ops.append(o3)
                 flow_names.append("pbirth")
                 meta["flows"].append("post-strat " + bk)
@@ -289,7 +300,7 @@ class Gen:
             if want.get("post_import") and len(strata) >= 2 and r.random() < want["post_import"]:
                 d = r.choice(scomps)
                 ops.append({"op": "flow", "kind": "importation", "name": "pimp%d" % k, "param": frac(r, 1), "dst": d,
-                            "split": True, "df": {name: r.choice(strata)}})
+                            "split": True, "df": self._dest_filter(ops, comps, d, name, strata)})
                 flow_names.append("pimp%d" % k)
                 meta["flows"].append("post-strat split importation")
             if want.get("cross_strain") and kind == "strain" and len(strata) >= 2 and kinds_nonlin and len(scomps) >= 1 \
@@ -404,6 +415,9 @@ class Gen:
                         r.shuffle(ks)
                         filt = {u_: r.choice(strat_strata[u_]) for u_ in ks}
                     rq = {"type": "comp", "names": r.sample(comps, r.randint(1, len(comps))), "filt": filt}
+                    if r.random() < 0.15:
+                        # the union of two overlapping groups of compartments: a name listed twice still counts once
+                        rq["names"] = rq["names"] + [r.choice(rq["names"])]
             elif c < 0.5:
                 rq = {"type": "agg", "sources": [r.choice(names) for _ in range(r.randint(1, 3))]}
             elif c < 0.7:
